@@ -33,6 +33,7 @@ type Exec struct {
 	entryMeasure Term
 	heapElemType map[string]types.Type
 	inHandler  int // >0 while deferred calls are being executed
+	nextFrameDeferred bool // the next inlined frame is the function of a defer statement
 	instDone   map[string]bool
 	qhyps      []qhyp // quantified hypotheses that can be instantiated at goal constants
 }
@@ -124,6 +125,7 @@ type Frame struct {
 	direct   map[*ssa.Alloc]bool
 	loops    *loopInfo
 	inPanicDefers bool
+	deferredDirectly bool // this frame runs a function called by a defer statement
 	loopCtxs map[*ssa.BasicBlock]*loopCtx
 }
 
@@ -458,7 +460,9 @@ func (fr *Frame) runDefers(st *State) *State {
 		d := ds[i]
 		switch f := d.fn.(type) {
 		case FuncV:
+			ex.nextFrameDeferred = true
 			_, st = ex.callFunction(fr, st, f.Fn, d.args, f.Bindings, d.call, token.NoPos, true)
+			ex.nextFrameDeferred = false
 		default:
 			ex.cx.unsup("deferred call of unknown function value")
 		}
